@@ -26,34 +26,66 @@ def load_check(cid: str):
     return importlib.import_module(f"checks.{cid.lower()}")
 
 
-# ------------------------------------------------------------------ python -O child
+# ------------------------------------------------------------------ child interpreters: python -O, mypyc build
 # A plan marked {"interpreter": "-O"} is executed in a long-lived child interpreter started with -O (assert
-# statements removed, __debug__ false): same plan, same PRNG state / tape, the child's tape, counters and
+# statements removed, __debug__ false); {"interpreter": "mypyc"} in a child that imports pyjelly from a mypyc build
+# of the working tree (simkit/mypyc_build.py).  Same plan, same PRNG state / tape; the child's tape, counters and
 # event-log digest are folded back into the parent's Sim so that the run stays one replayable execution.
-_OPT = {"pid": None, "proc": None}
+_CHILD = {"pid": None, "procs": {}}
+CHILD_LABEL = {"-O": "python -O", "mypyc": "mypyc build"}
 
 
-def _opt_child():
+def compiled_build() -> str | None:
+    """Build directory for the 'mypyc' variant of the tree under test (None: not available; why is printed once)."""
+    if os.environ.get("VERIF_NO_COMPILED"):
+        return None
+    cached = os.environ.get("VERIF_MYPYC_BUILD")
+    if cached is not None:
+        return cached or None
+    from . import mypyc_build, repo
+    path, note = mypyc_build.ensure_build(repo.repo_root())
+    os.environ["VERIF_MYPYC_BUILD"] = path or ""
+    if path is None:
+        print(f"  note: no mypyc build of the tree under test ({note}); compiled-mode runs are skipped")
+    return path
+
+
+def _opt_child(kind: str = "-O"):
     import atexit
     import subprocess
-    if _OPT["pid"] != os.getpid() or _OPT["proc"] is None or _OPT["proc"].poll() is not None:
+    if _CHILD["pid"] != os.getpid():
+        _CHILD["pid"], _CHILD["procs"] = os.getpid(), {}
+        atexit.register(_opt_stop)
+    proc = _CHILD["procs"].get(kind)
+    if proc is None or proc.poll() is not None:
         env = dict(os.environ, PYTHONHASHSEED="0", PYTHONDONTWRITEBYTECODE="1")
         env.pop("PYTHONOPTIMIZE", None)
-        proc = subprocess.Popen([sys.executable, "-O", "-B", os.path.join(VERIF, "simkit_main.py"), "--opt-child"],
+        args = [sys.executable, "-B"]
+        if kind == "-O":
+            args.insert(1, "-O")
+            env.pop("VERIF_COMPILED", None)
+        else:
+            build = compiled_build()
+            if build is None:
+                raise HarnessError("compiled-mode plan but no mypyc build is available")
+            env["VERIF_COMPILED"] = "1"
+            env["VERIF_REPO"] = build
+        proc = subprocess.Popen([*args, os.path.join(VERIF, "simkit_main.py"), "--opt-child"],
                                 stdin=subprocess.PIPE, stdout=subprocess.PIPE, text=True, env=env, cwd=VERIF)
-        _OPT["pid"], _OPT["proc"] = os.getpid(), proc
-        atexit.register(_opt_stop)
-    return _OPT["proc"]
+        _CHILD["procs"][kind] = proc
+    return proc
 
 
 def _opt_stop():
-    if _OPT["pid"] == os.getpid() and _OPT["proc"] is not None:
+    if _CHILD["pid"] != os.getpid():
+        return
+    for proc in _CHILD["procs"].values():
         try:
-            _OPT["proc"].stdin.close()
-            _OPT["proc"].wait(timeout=5)
+            proc.stdin.close()
+            proc.wait(timeout=5)
         except Exception:  # noqa: BLE001
-            _OPT["proc"].kill()
-        _OPT["proc"] = None
+            proc.kill()
+    _CHILD["procs"] = {}
 
 
 def run_in_opt_child(mod, plan: dict, sim: Sim) -> dict:
@@ -64,18 +96,21 @@ def run_in_opt_child(mod, plan: dict, sim: Sim) -> dict:
     else:
         st = sim.rng.getstate()
         msg["rng_state"] = [st[0], list(st[1]), st[2]]
-    proc = _opt_child()
+    kind = plan["interpreter"]
+    proc = _opt_child(kind)
     try:
         proc.stdin.write(json.dumps(msg) + "\n")
         proc.stdin.flush()
         line = proc.stdout.readline()
     except (BrokenPipeError, OSError) as e:
-        raise HarnessError(f"-O child went away: {e}") from None
+        raise HarnessError(f"{kind} child went away: {e}") from None
     if not line:
-        raise HarnessError(f"-O child died (exit {proc.poll()})")
+        raise HarnessError(f"{kind} child died (exit {proc.poll()})")
     resp = json.loads(line)
-    if resp.get("optimize", 0) < 1:
+    if kind == "-O" and resp.get("optimize", 0) < 1:
         raise HarnessError("child interpreter does not run with -O")
+    if kind == "mypyc" and not resp.get("compiled"):
+        raise HarnessError("child interpreter did not import the mypyc build")
     if sim.replay:
         sim.pos = resp["pos"]
     else:
@@ -84,12 +119,12 @@ def run_in_opt_child(mod, plan: dict, sim: Sim) -> dict:
         sim.count(k, v)
     for k, v in resp["faults"].items():
         sim.fault(k, v)
-    sim.count("python_O_runs")
+    sim.count("python_O_runs" if kind == "-O" else "mypyc_build_runs")
     sim.seq += resp["seq"]
     sim._h.update(resp["digest"].encode())
     for v in resp["violations"]:
         # same signature as in the ordinary interpreter (one defect, one replay); the plan says where it ran
-        v["msg"] = "[python -O] " + str(v.get("msg", ""))
+        v["msg"] = f"[{CHILD_LABEL[kind]}] " + str(v.get("msg", ""))
     key = frozenset(("-O", k) for k in resp["keys"]) if resp["keys"] else None
     return {"violations": resp["violations"], "key": key, "harness": resp["harness"]}
 
@@ -118,7 +153,8 @@ def cmd_opt_child() -> int:
             ks = res["key"] if isinstance(res["key"], (set, frozenset)) else (res["key"],)
             keys = sorted(hashlib.blake2b(repr(k1).encode("utf-8", "backslashreplace"), digest_size=8).hexdigest()
                           for k1 in ks)
-        out.write(json.dumps({"optimize": sys.flags.optimize, "violations": res["violations"], "keys": keys,
+        out.write(json.dumps({"optimize": sys.flags.optimize, "compiled": bool(os.environ.get("VERIF_COMPILED")),
+                              "violations": res["violations"], "keys": keys,
                               "harness": res["harness"], "tape": sim.tape if not sim.replay else [],
                               "pos": sim.pos, "counters": sim.counters, "faults": sim.faults, "seq": sim.seq,
                               "digest": sim.digest()}, default=repr) + "\n")
@@ -130,7 +166,7 @@ def cmd_opt_child() -> int:
 def run_plan(mod, plan: dict, sim: Sim) -> dict:
     """Execute one plan under ``sim``; returns {'violations','key','harness'}"""
     out = {"violations": [], "key": None, "harness": None}
-    if plan.get("interpreter") == "-O":
+    if plan.get("interpreter") in ("-O", "mypyc"):
         try:
             return run_in_opt_child(mod, plan, sim)
         except HarnessError as e:
@@ -167,6 +203,9 @@ def do_run(mod, seed: int, run: int, tier: str) -> tuple[dict, dict, Sim]:
     every = getattr(mod, "OPTIMIZED_EVERY", 0)
     if every and run % every == every - 1 and not os.environ.get("VERIF_NO_OPT_CHILD"):
         plan["interpreter"] = "-O"
+    every_c = getattr(mod, "COMPILED_EVERY", 0)
+    if every_c and run % every_c == every_c // 2 and os.environ.get("VERIF_MYPYC_BUILD"):
+        plan["interpreter"] = "mypyc"
     plan.setdefault("check", mod.ID)
     plan["seed"] = seed
     plan["run"] = run
@@ -361,6 +400,8 @@ def cmd_check(cid: str, tier: str) -> int:
     harness_fail = None
     if hasattr(mod, "prepare"):
         mod.prepare(tier)
+    if getattr(mod, "COMPILED_EVERY", 0):
+        compiled_build()            # before the workers are forked: they inherit VERIF_MYPYC_BUILD
     if workers <= 1:
         for j in jobs:
             lo, agg = _worker(j)
@@ -487,6 +528,8 @@ def cmd_check(cid: str, tier: str) -> int:
     probe_names = list(getattr(mod, "PROBES", []))
     if getattr(mod, "OPTIMIZED_EVERY", 0):
         probe_names.append("python_O_runs")
+    if getattr(mod, "COMPILED_EVERY", 0) and os.environ.get("VERIF_MYPYC_BUILD"):
+        probe_names.append("mypyc_build_runs")
     zero_probes = [p for p in probe_names if not probes.get(p)]
     ev = {
         "property_id": cid, "tier": tier, "seed": seed, "level": mod.LEVEL,
